@@ -310,8 +310,14 @@ def run(doc, log):
             if spectra[a][2] == spectra[b][2] and spectra[a][3] == spectra[b][3]:
                 sa, sb = spectra[a][1], spectra[b][1]
                 sc = max(float(np.abs(sa).max()), 1e-300)
-                if np.abs(sa - sb).max() > 1e-7 * sc + 1e-9 * lam_char:
-                    raise Violation(PROP, "start-vector-independence", f"spectra from two start vectors differ by {np.abs(sa-sb).max():.3e} (scale {sc:.3e})", site=f"FreeVibration.evaluate[{spectra[a][4]}]")
+                tol = 1e-7 * sc + 1e-9 * lam_char
+                # a Lanczos method may miss copies of a repeated eigenvalue and return the next
+                # one instead: compare as sets below the smaller of the two largest values
+                top = min(sa.max(), sb.max()) - 10 * tol
+                for x, other in ((sa, sb), (sb, sa)):
+                    for val in x[x < top]:
+                        if np.abs(other - val).min() > tol:
+                            raise Violation(PROP, "start-vector-independence", f"eigenvalue {val:.8e} is returned for one start vector but not for another (nearest {other[np.abs(other - val).argmin()]:.8e})", site=f"FreeVibration.evaluate[{spectra[a][4]}]")
                 log.count("start-vectors-compared")
     # rigid motion twin -----------------------------------------------------------------------------
     if doc.get("twin") and spectra and spectra[0][0] == 0 and regular_first:
